@@ -73,6 +73,7 @@ type scenario struct {
 	Seg   int      // segmentation kind for the joined stream (0 whole, 1 dribble, 2 multi, 3 single)
 	K     int
 	Sub   int // sub-seed for specials
+	Force int // specials: >0 forces this case of the special scenario (fixed special cases)
 }
 
 func fixedCases(s gen.Service) [][][]byte {
@@ -91,6 +92,16 @@ func fixedCases(s gen.Service) [][][]byte {
 			line("USER anonymous", "PASS anonymous", "MKD a", "CWD a", "PWD", "CDUP", "PWD"),
 			line("USER anonymous", "PASS anonymous", "FEAT", "FEAT"),
 			line("CWD /"),
+			// data-connection commands with ill-formed or missing arguments, and transfers without a data connection
+			line("USER anonymous", "PASS anonymous", "PORT 1,2"),
+			line("USER anonymous", "PASS anonymous", "PORT 1,2,3,4,5,x"),
+			line("USER anonymous", "PASS anonymous", "EPRT |1|h"),
+			line("USER anonymous", "PASS anonymous", "EPRT |1|127.0.0.1|"),
+			line("USER anonymous", "PASS anonymous", "RETR x"),
+			line("USER anonymous", "PASS anonymous", "LIST"),
+			line("USER anonymous", "PASS anonymous", "STOR x"),
+			line("USER anonymous", "PASS anonymous", "PASV", "PASV", "EPSV", "PORT 127,0,0,1,0,9"),
+			line("USER anonymous", "PASS anonymous", "REST 99999999999999999999", "RETR x"),
 		}
 	case "ipp":
 		mk := func(body []byte) [][]byte {
@@ -157,6 +168,10 @@ func mkScenario(s gen.Service, seed int64, idx int, concOnly bool) scenario {
 	fx := fixedCases(s)
 	if !concOnly && idx < len(fx) {
 		return scenario{Kind: "fixed", Steps: fx[idx], K: 1}
+	}
+	if !concOnly && s.Special == "ssh" && idx < len(fx)+fixedSpecials(s) {
+		// fixed special cases: authenticated sessions with every accepted credential tried in turn
+		return scenario{Kind: "ssh", K: 1, Sub: 7700 + idx, Force: 6}
 	}
 	r := core.NewRng(seed, "C01/"+s.Type+"/"+s.Net, idx)
 	sc := scenario{K: 1, Sub: int(r.U64() & 0x7fffffff)}
@@ -521,7 +536,14 @@ type ScenarioInfo struct {
 // Run executes scenario idx (same generator as C01) and returns what it did.
 // FixedCount is the number of fixed (non-seeded) scenarios of the workload's service; Run serves them at
 // indexes 0..FixedCount()-1.
-func (w *Workload) FixedCount() int { return len(fixedCases(w.Svc)) }
+func (w *Workload) FixedCount() int { return len(fixedCases(w.Svc)) + fixedSpecials(w.Svc) }
+
+func fixedSpecials(s gen.Service) int {
+	if s.Special == "ssh" {
+		return 2
+	}
+	return 0
+}
 
 func (w *Workload) Run(seed int64, idx, k int, singleConn bool) ScenarioInfo {
 	sc := mkScenario(w.Svc, seed, idx, false)
